@@ -470,7 +470,209 @@ def synthetic_rule_cases(mods, tier):
                            "output": out, "lost": not line_present(out, body, term or None)}
 
 
+
+# ------------------------------------------------------------------------------------------------
+# round 5 (seed C20-d): decorated definitions.  A definition occupies the physical lines from its FIRST DECORATOR
+# to its end; the rules that delete / move / rewrite whole definitions go through the direct-editing back end
+# (processing.remove_nodes / alter_code) or carry their own guard, and ask has_ignore_comment about the node.
+
+DECO_SHAPES = {
+    "single": ["@functools.lru_cache(maxsize=None)"],
+    "stacked": ["@functools.wraps(len)", "@functools.lru_cache(maxsize=8)"],
+    "multiline": ["@functools.lru_cache(", "    maxsize=16,", ")"],
+}
+# decorators that move_staticmethod_static_scope / remove_unused_self_cls accept
+DECO_SHAPES_STATIC = {
+    "single": ["@staticmethod"],
+    "multiline": ["@(", "    staticmethod", ")"],
+}
+DECO_SHAPES_CLS = {
+    "single": ["@classmethod"],
+    "multiline": ["@(", "    classmethod", ")"],
+}
+DECO_SHAPES_CLASS = {
+    "single": ["@functools.total_ordering"],
+    "stacked": ["@functools.total_ordering", "@functools.total_ordering"],
+    "multiline": ["@(", "    functools.total_ordering", ")"],
+}
+
+
+def _deco(lines, indent=""):
+    return "".join(indent + l + "\n" for l in lines)
+
+
+# name -> (shapes, template with {D} = decorator lines at module level / {DI} = indented by 4, rules run alone:
+#          (module, function, kwargs))
+DECO_TRIGGERS = {
+    "dup_functions": (DECO_SHAPES,
+                      "import functools\n\n\n{D}def first(x):\n    return x * 2 + 1\n\n\n{D}def second(x):\n    return x * 2 + 1\n\n\n"
+                      "print(first(1), second(2))\n",
+                      [("fixes", "remove_duplicate_functions", {"preserve": frozenset()})]),
+    "unused_function": (DECO_SHAPES,
+                        "import functools\n\n\n{D}def _unused(x):\n    return x * 2 + 1\n\n\nprint(3, functools)\n",
+                        [("fixes", "delete_unused_functions_and_classes", {"preserve": frozenset()})]),
+    "unused_class": (DECO_SHAPES_CLASS,
+                     "import functools\n\n\n{D}class _Unused:\n    x = 1\n\n\nprint(3, functools)\n",
+                     [("fixes", "delete_unused_functions_and_classes", {"preserve": frozenset()})]),
+    "unreachable": (DECO_SHAPES,
+                    "import functools\n\n\ndef f(a):\n    return a\n\n{DI}    def g(b):\n        return b\n\n    return g\n\n\n"
+                    "print(f(1), functools)\n",
+                    [("fixes", "delete_unreachable_code", {})]),
+    "dead_if": (DECO_SHAPES,
+                "import functools\nimport sys\n\nif False:\n{DI}    def g(b):\n        return b\n\nprint(sys.argv, functools)\n",
+                [("fixes", "remove_dead_ifs", {})]),
+    "static_scope": (DECO_SHAPES_STATIC,
+                     "class A:\n{DI}    def m(a):\n        return a + 1\n\n\nprint(A.m(1))\n",
+                     [("object_oriented", "move_staticmethod_static_scope", {"preserve": frozenset()})]),
+    "unused_cls": (DECO_SHAPES_CLS,
+                   "class A:\n    y = 1\n\n{DI}    def m(cls, a):\n        return a + 1\n\n\nprint(A.m(1), A.y)\n",
+                   [("object_oriented", "remove_unused_self_cls", {})]),
+    "unused_self": ({"none": []},
+                    "class A:\n    y = 1\n\n{DI}    def m(self, a):\n        return a + 1\n\n\nprint(A().m(1), A.y)\n",
+                    [("object_oriented", "remove_unused_self_cls", {})]),
+    "unconventional_class": (DECO_SHAPES_CLASS,
+                             "import functools\n\n\n{D}class Foo:\n    y = 2\n\n\nFoo.x = 1\nprint(Foo)\n",
+                             [("object_oriented", "fix_unconventional_class_definitions", {})]),
+    "move_imports": (DECO_SHAPES,
+                     "import functools\n\n\n{D}def f(a):\n    import os\n    return os.sep + a\n\n\nprint(f('a'))\n",
+                     [("fixes", "move_imports_to_toplevel", {})]),
+}
+
+
+def definition_lines(src: str):
+    """0-based physical line numbers of every decorated-or-not definition of `src`: each decorator line, each line of
+    a multi-line decorator call, the def/class line, the body lines (computed from CPython's ast)"""
+    out = set()
+    for node in ast.walk(ast.parse(src)):
+        if isinstance(node, (ast.FunctionDef, ast.AsyncFunctionDef, ast.ClassDef)):
+            first = min([node.lineno] + [d.lineno for d in node.decorator_list])
+            # the "@" may sit on an earlier line than the decorator expression ("@(" + newline)
+            lines = py_lines(src)
+            while first > 1 and not lines[first - 1].lstrip().startswith("@") and node.decorator_list:
+                first -= 1
+            out.update(range(first - 1, node.end_lineno))
+    return sorted(out)
+
+
+def decorated_programs():
+    for name, (shapes, tpl, rules) in DECO_TRIGGERS.items():
+        for shape, dl in shapes.items():
+            src = tpl.replace("{DI}", _deco(dl, "    ")).replace("{D}", _deco(dl))
+            ast.parse(src)
+            yield name, shape, src, rules
+
+
+def decorated_cases(tier):
+    """family 'decorated': every physical line of every definition (decorator lines, lines inside a multi-line
+    decorator, def/class line, body lines) of every decorated trigger program x the rules that remove / move /
+    rewrite whole definitions.  Each case is run through format_code AND through the rule alone (`rules`)."""
+    for name, shape, src, rules in decorated_programs():
+        for ln in range(n_lines(src)):
+            a = annotate(src, ln, COMMENTS[0])
+            if a:
+                base = {"family": "decorated", "trigger": f"{name}:{shape}", "lineno": ln, "comment": COMMENTS[0],
+                        "source": a[0], "line": a[1], "term": None}
+                for m, f, _ in rules:
+                    yield dict(base, entry="rule", rule=[m, f])
+                yield dict(base, entry="format_code")
+
+
+def run_rule_alone(mods, case):
+    """the second entry point of family 'decorated': the rule function alone on the annotated source"""
+    m, f = case["rule"]
+    kwargs = next(k for (mm, ff, k) in DECO_TRIGGERS[case["trigger"].split(":")[0]][2] if (mm, ff) == (m, f))
+    return getattr(mods[m], f)(case["source"], **kwargs)
+
+
+def node_first_last(node, src: str):
+    """first / last physical line (0-based) of a node: the line of the "@" of its first decorator, else lineno"""
+    first = min([node.lineno] + [d.lineno for d in getattr(node, "decorator_list", None) or []])
+    if getattr(node, "decorator_list", None):
+        lines = py_lines(src)
+        while first > 1 and not lines[first - 1].lstrip().startswith("@"):
+            first -= 1
+    return first - 1, node.end_lineno - 1
+
+
+def charno(src: str, lineno: int, col: int) -> int:
+    """character offset of (1-based line, column) -- ASCII sources only"""
+    return sum(len(l) for l in py_lines(src)[:lineno - 1]) + col
+
+
+class IgnoreSpy:
+    """Wraps core.get_charnos and core.has_ignore_comment: for every has_ignore_comment(source, x) where x is a node,
+    or the very Range object core.get_charnos returned for a node, records (source, node lines, range handed over,
+    verdict, calling function).  Records only while `active`."""
+
+    def __init__(self, mods):
+        self.core = mods["core"]
+        self.active = False
+        self.cases = {}
+        self._ranges = []     # (Range object, node, source), kept alive so that ids are not reused
+
+    def __enter__(self):
+        core = self.core
+        self._orig = (core.get_charnos, core.has_ignore_comment)
+        orig_gc, orig_hic = self._orig
+
+        def get_charnos(node, source, *a, **k):
+            r = orig_gc(node, source, *a, **k)
+            if self.active and len(self._ranges) < 200000:
+                self._ranges.append((r, node, source))
+            return r
+
+        def has_ignore_comment(source, rng):
+            v = orig_hic(source, rng)
+            if self.active:
+                try:
+                    fr = sys._getframe(1)
+                    while fr.f_back is not None and fr.f_code.co_name.startswith("<"):
+                        fr = fr.f_back
+                    self._record(source, rng, v, fr.f_code.co_name)
+                except Exception:  # noqa
+                    pass
+            return v
+        core.get_charnos, core.has_ignore_comment = get_charnos, has_ignore_comment
+        return self
+
+    def __exit__(self, *exc):
+        self.core.get_charnos, self.core.has_ignore_comment = self._orig
+
+    def flush(self):
+        self._ranges.clear()
+
+    def _record(self, source, rng, verdict, caller):
+        if isinstance(rng, ast.AST):
+            node, handed = rng, "node"
+        else:
+            node = next((n for (r, n, s) in reversed(self._ranges[-4000:]) if r is rng and s == source), None)
+            handed = "range"
+        if node is None or getattr(node, "end_lineno", None) is None or not source.isascii():
+            return
+        first, last = node_first_last(node, source)
+        if handed == "node":
+            # the natural reading of a bare node: its own position, lineno/col_offset .. end_lineno/end_col_offset
+            start, end = charno(source, node.lineno, node.col_offset), charno(source, node.end_lineno, node.end_col_offset)
+        else:
+            start, end = rng.start, rng.end
+        if start >= end:
+            return
+        key = (source, start, end, first, last)
+        if key not in self.cases:
+            gc = self._orig[0](node, source)
+            self.cases[key] = {"source": source, "range": [start, end], "first": first, "last": last,
+                               "verdict": bool(verdict), "handed": handed, "caller": caller,
+                               "node": type(node).__name__, "decorated": bool(getattr(node, "decorator_list", None)),
+                               "get_charnos": [gc.start, gc.end]}
+
+
+def g_node_case(c) -> str:
+    return (f"(mkNode {gtextN(c['source'])} {g_coms(tokenizer_verdict(c['source']))} "
+            f"({gz(c['range'][0])}, {gz(c['range'][1])})%Z {c['first']}%nat {c['last']}%nat {gbool(c['verdict'])})")
+
+
 def sweep_cases(tier):
+    yield from decorated_cases(tier)
     yield from base_cases(tier)
     yield from sep_cases(tier)
     yield from terminator_cases(tier)
@@ -765,18 +967,33 @@ def check(run: common.Run):
     sweep_fail, sweep_known, n_sweep = [], Counter(), 0
     known_example = {}
     fam_count = Counter()
+    spy = IgnoreSpy(mods)
+    spy.__enter__()
     for c in sweep_cases(run.tier):
         n_sweep += 1
         src, line, term = c["source"], c["line"], c["term"]
         fam_count[c["family"]] += 1
         mods["core"].parse.cache_clear()
         exc = None
+        # the arguments the real callers hand to has_ignore_comment are recorded for the decorated family (and, in the
+        # thorough tier, for the plain family)
+        spy.active = c["family"] == "decorated" or (run.tier != "quick" and c["family"] == "plain")
+        spy.flush()
         with common.quiet():
             try:
-                out = mods["main"].format_code(src)
+                out = run_rule_alone(mods, c) if c.get("entry") == "rule" else mods["main"].format_code(src)
             except Exception as e:  # noqa
                 exc = e
-        if exc is not None:
+        spy.active = False
+        if exc is not None and c.get("entry") == "rule":
+            hist["sweep:rule-exception"] += 1
+            continue     # totality of a single rule is C04's business; format_code on the same source is the next case
+        if exc is None and c.get("entry") == "rule":
+            if line_present(out, line, term):
+                hist["sweep:kept"] += 1
+                continue
+            case = dict(c, site=".".join(c["rule"]), output=out, stage_input=src, stage_output=out)
+        elif exc is not None:
             # totality is C04's business -- unless the exception is caused by the line structure itself: the same
             # program with every str.splitlines-only separator replaced by a letter and \n terminators goes through
             hist["sweep:exception"] += 1
@@ -807,6 +1024,45 @@ def check(run: common.Run):
             sweep_known[f.id] += 1
             known_example.setdefault(f.id, case)
         hist["sweep:lost@" + case["site"]] += 1
+    spy.__exit__(None, None, None)
+
+    # ---- nodes (round 5): the range the real callers (remove_nodes, alter_code, the rules' own guards, the scheduler)
+    #      handed to has_ignore_comment for a node, against the node's physical lines first decorator..end_lineno
+    #      (IgnoreModel.spans / node_lines_ignore, T20_4): decorated nodes first, then the others, <= 2 x 400 cases
+    node_cases = sorted(spy.cases.values(), key=lambda c: (not c["decorated"], c["handed"] != "node"))
+    node_cases = node_cases[:800 if run.tier == "quick" else 4000]
+    node_files = []
+    for k in range(0, len(node_cases), 400):
+        shard = node_cases[k:k + 400]
+        p = wd / f"node_{k // 400}.v"
+        p.write_text("From Coq Require Import List ZArith NArith Bool.\nImport ListNotations.\n"
+                     "Require Import Pyrefact.Base Pyrefact.SchedModel Pyrefact.IgnoreModel.\n"
+                     "Definition cases : list node_case := [\n " + ";\n ".join(g_node_case(c) for c in shard) + "\n].\n"
+                     "Eval vm_compute in (bad_idx node_case_ok cases).\n")
+        node_files.append((p, shard))
+    node_results = common.run_case_files([p for p, _ in node_files]) if node_files else {}
+    for p, shard in node_files:
+        rc, out = node_results[p]
+        idx = common.parse_nat_list(out) if rc == 0 else None
+        if idx is None:
+            disagreements.append({"kind": "model-evaluation-failed", "file": p.name, "log": out[-1500:]})
+            continue
+        for i in idx:
+            disagreements.append(dict(shard[i], kind="node-range",
+                                      detail="the range handed to has_ignore_comment for this node does not span the "
+                                             "node's physical lines (first decorator line .. end_lineno), or the verdict "
+                                             "differs from 'one of these lines protects' (T20_4)"))
+    # independent of the model: a decorated node must be handed over as core.get_charnos(node) (from the first "@")
+    for c in node_cases:
+        (s0, e0), (s1, e1) = c["range"], c["get_charnos"]
+        # (the scheduler asks with keep_first_indent=True: the blanks before the "@" are included)
+        same = e0 == e1 and s0 <= s1 and not c["source"][s0:s1].strip(" ")
+        if c["decorated"] and (c["handed"] != "range" or not same):
+            disagreements.append(dict(c, kind="node-range",
+                                      detail="a caller of has_ignore_comment handed over a decorated node / a range that "
+                                             "is not core.get_charnos(node)"))
+    hist["node-cases"] = len(node_cases)
+    hist["node-cases:decorated"] = sum(c["decorated"] for c in node_cases)
 
     # ---- synthetic rules: ANY rewrite a rule may yield (range x replacement text), through the real scheduler
     #      and _do_rewrite, must leave a line with an ignore comment verbatim
@@ -836,14 +1092,16 @@ def check(run: common.Run):
     # ---- verdicts
     seen_sites, shown = set(), Counter()
     for c in sweep_fail:   # one report per (family, site), at most 4 per family
-        key = (c.get("family"), c["site"])
+        key = (c.get("family"), c["site"], c.get("entry"))
         if key in seen_sites or shown[c.get("family")] >= 4:
             continue
         seen_sites.add(key)
         shown[c.get("family")] += 1
         run.violation({"kind": "property-oracle", **c,
-                       "explanation": "a line carrying an ignore comment is not present verbatim in format_code's output "
-                                      "and no listed finding covers this site/shape"}, True)
+                       "explanation": "a line carrying an ignore comment is not present verbatim in %s and no listed "
+                                      "finding covers this site/shape"
+                                      % ("the output of the rule run alone (`rule`)" if c.get("entry") == "rule"
+                                         else "format_code's output")}, True)
     for c in skip_fail[:3]:
         run.violation({"kind": "property-oracle", "site": "main.format_code", **c,
                        "explanation": "skip_file comment not honoured"}, True)
@@ -874,8 +1132,12 @@ def check(run: common.Run):
               "str.splitlines terminators; per case: str.splitlines, per-line has_ignore_comment, has_ignore_comment on "
               "ranges (all ranges for sources <= 14 chars, line-boundary +-1 otherwise), format_code(src) == src. "
               "Sweep: every physical line of %d trigger programs annotated with an ignore comment, format_code, line "
-              "present verbatim; failures bisected by stage tracing. Non-trivial = at least one line carries an "
-              "ignore comment; distinct by source text." % len(TRIGGERS)),
+              "present verbatim; failures bisected by stage tracing. Family 'decorated' (round 5): every physical line "
+              "of %d decorated-definition programs (single / stacked / multi-line decorators) x the rule that removes, "
+              "moves or rewrites the definition run alone AND format_code. Nodes: every (node, range) a real caller "
+              "handed to has_ignore_comment during that family vs IgnoreModel.spans / node_lines_ignore (first "
+              "decorator line .. end_lineno). Non-trivial = at least one line carries an "
+              "ignore comment; distinct by source text." % (len(TRIGGERS), sum(1 for _ in decorated_programs()))),
         samples=[items[0][0], items[n_exh // 2][0], items[-1][0], next(iter(sweep_cases(run.tier)))["source"]],
         exhaustive=False, exhaustive_part=n_exh, random_part=nrand + nml, sweep_cases=n_sweep,
         entry_point_cases=len(ep), histogram=dict(hist),
@@ -884,8 +1146,10 @@ def check(run: common.Run):
         trusted_base=common.TRUSTED_BASE_COMMON + [
             "scheduler model SchedModel.v and its correspondence (C10) for T20.3a",
             "_do_rewrite is abstracted to a splice (second ignore test there is redundant with the scheduler's)",
-            "the direct-edit back end (remove_nodes/_insert_nodes/alter_code), the raw-text pre-passes, black and the "
-            "naming stage are NOT modelled: covered only by the sweep (known findings F20-1..3)"],
+            "the direct-edit back end (remove_nodes/_insert_nodes/alter_code): only its ignore test is modelled (the "
+            "range handed to has_ignore_comment for a node = the node's physical lines, T20_4, correspondence on the "
+            "recorded arguments; core.get_charnos itself is not modelled); its text surgery, the raw-text pre-passes, "
+            "black and the naming stage are covered only by the sweep"],
     )
     run.assumptions += [
         "T20.3 is about rewrites that go through the scheduler (every @processing.fix rule, chain, sub/subn)",
@@ -898,9 +1162,18 @@ def replay(path: str) -> int:
     print(json.dumps({k: data[k] for k in data if k in ("kind", "explanation", "site", "line", "trigger")}, indent=1))
     if data.get("kind") == "property-oracle" and "line" in data:
         with common.quiet():
-            out = mods["main"].format_code(data["source"])
+            out = run_rule_alone(mods, data) if data.get("entry") == "rule" else mods["main"].format_code(data["source"])
         print("output now:", repr(out))
         print("line present:", line_present(out, data["line"]))
+    elif data.get("kind") == "node-range":
+        src, core = data["source"], mods["core"]
+        for node in ast.walk(ast.parse(src)):
+            if getattr(node, "end_lineno", None) is not None and type(node).__name__ == data["node"] \
+                    and list(node_first_last(node, src)) == [data["first"], data["last"]]:
+                r = core.get_charnos(node, src)
+                print("node lines %d..%d: get_charnos now %s (recorded range %s, handed over as a %s by %s); "
+                      "has_ignore_comment now: %s" % (data["first"], data["last"], tuple(r), data["range"], data["handed"],
+                                                      data["caller"], core.has_ignore_comment(src, r)))
     elif data.get("kind") == "recogniser":
         s = data["source"]
         print("impl now:", impl_case(mods, s, [tuple(r[0]) for r in data["impl_ranges"]], True))
